@@ -143,7 +143,7 @@ Fixpoint ds_scan (s : bytes) (st : dstate) (pos : nat) (te : option nat) : optio
 
 (** "domainspec must end in toplabel" *)
 Definition toplabel_ok (ds : bytes) : bool :=
-  let ds' := match last_opt ds with Some 46 => removelast ds | _ => ds end in
+  let ds' := if ends_with_dot ds then removelast ds else ds in
   if negb (mem 46 ds') then false
   else
     let label := rev (take_while (fun c => negb (c =? 46)) (rev ds')) in
@@ -304,8 +304,8 @@ Definition ptr_match (checkdom : bytes) (v : bytes) : bool :=
   let dlen := length v in
   let dslen := length checkdom in
   if Nat.ltb dlen dslen then false
-  else if Nat.eqb dlen dslen then bytes_eqb v checkdom
-  else (nth (dlen - dslen - 1) v 0 =? 46) && bytes_eqb (skipn (dlen - dslen) v) checkdom.
+  else if Nat.eqb dlen dslen then ci_eqb v checkdom
+  else (nth (dlen - dslen - 1) v 0 =? 46) && ci_eqb (skipn (dlen - dslen) v) checkdom.
 
 Definition spfptr (domain tok : bytes) : Cres (Z * list qev) :=
   let m := may_have_domainspec tok in
@@ -338,8 +338,6 @@ Definition spfptr (domain tok : bytes) : Cres (Z * list qev) :=
       end
   end.
 
-Definition ip4_char (c : N) : bool := is_digit c || (c =? 46).
-Definition ip6_char (c : N) : bool := is_xdigit c || (c =? 58) || (c =? 46).
 
 (** the "/len" part of ip4 and ip6: None = SPF_PERMERROR *)
 Definition ip_prefix (rest : bytes) (lo hi : N) : option N :=
@@ -387,7 +385,7 @@ Fixpoint txt_trim (scanning : bool) (s : bytes) (rem : Z) : option bytes :=
        | c :: t => if c =? 46 then txt_trim false t (rem - 1)%Z else txt_trim true t (rem - 1)%Z
        end.
 Fixpoint strip_dots_rev (r : bytes) : bytes :=
-  match r with 46 :: t => strip_dots_rev t | _ => r end.
+  match r with c :: t => if c =? 46 then strip_dots_rev t else r | [] => [] end.
 Definition strip_trailing_dots (s : bytes) : bytes := rev (strip_dots_rev (rev s)).
 
 Definition txtlookup (domain : bytes) : txtans * list qev :=
